@@ -31,6 +31,42 @@ pub struct Reg {
     live: AtomicIsize,
     bad_magic_on_drop: AtomicUsize,
     bad_magic_on_read: AtomicUsize,
+    // ---- ONLINE reclamation oracle (scheduled runs): a logical clock ticked at call entries, at every value a clear
+    // callback is handed, and at every destructor run; `in_call[t]` = clock value at which managed thread t entered the
+    // bucket call it is executing (every bucket call pins the epoch for its whole duration: `epoch_pin()` is the first
+    // statement of push / data_with / clear_with / is_empty); `taken[v]` = clock value at which a clear_with callback was
+    // handed v (the block is retired only after that).  `premature` = destructor runs that crossbeam-epoch's contract
+    // excludes: see `Tv::drop`.
+    clock: std::sync::atomic::AtomicU64,
+    in_call: Mutex<Vec<Option<(u64, &'static str)>>>,
+    taken: Mutex<BTreeMap<u64, u64>>,
+    premature: Mutex<Vec<String>>,
+}
+
+thread_local! {
+    /// index of the managed thread (scheduled runs) the current OS thread is; `None` outside scheduled bodies
+    static CUR_T: std::cell::Cell<Option<usize>> = std::cell::Cell::new(None);
+}
+
+impl Reg {
+    fn tick(&self) -> u64 {
+        self.clock.fetch_add(1, Ordering::SeqCst) + 1
+    }
+    /// managed thread `t` is about to enter a bucket call (same grant as the call's `epoch_pin()`)
+    fn enter(&self, t: usize, what: &'static str) {
+        let now = self.tick();
+        let mut ic = self.in_call.lock().unwrap();
+        if ic.len() <= t {
+            ic.resize(t + 1, None);
+        }
+        ic[t] = Some((now, what));
+    }
+    /// the call returned (the guard was dropped in the same grant)
+    fn leave(&self, t: usize) {
+        if let Some(x) = self.in_call.lock().unwrap().get_mut(t) {
+            *x = None;
+        }
+    }
 }
 
 pub struct Tv {
@@ -54,6 +90,14 @@ impl Tv {
         }
         self.v
     }
+    /// `read` for the callback of a clearing read: additionally records WHEN the clear was handed the value (the block
+    /// holding it is retired — `defer_unchecked` — only after the callback returned)
+    fn take(&self) -> u64 {
+        let v = self.read();
+        let now = self.reg.tick();
+        self.reg.taken.lock().unwrap().entry(v).or_insert(now);
+        v
+    }
 }
 
 impl Clone for Tv {
@@ -70,6 +114,35 @@ impl Drop for Tv {
         }
         unsafe { std::ptr::write_volatile(&mut self.magic, DEAD) };
         if !self.clone {
+            // ONLINE reclamation oracle. A pushed value is destroyed only through the deferred destruction of its block,
+            // queued by the clear_with that took it, after its callback had been handed the value (clock `d`).  A managed
+            // thread u that entered a bucket call at clock s < d and is still inside that call has been pinned since before
+            // the block was retired: the global epoch can have advanced at most once since u pinned, a retired block needs
+            // two advances after its retirement — so under crossbeam-epoch's contract this destructor CANNOT run now,
+            // whatever the schedule.  If it does, the block was freed under a thread that may still walk it (data_with /
+            // clear_with that loaded the tail before the detach) or touch it (a pusher holding it as its tail): use after
+            // free.  The run is given up at once (sched::ABORT_RUN): the parked threads are never resumed into freed memory,
+            // so the verdict does not depend on what the allocator did with the block (a crash or an endless spin on garbage).
+            // The destroying thread itself is not counted (freeing in one's own call harms nobody by itself).
+            let me = CUR_T.with(|c| c.get());
+            if let Some(d) = self.reg.taken.lock().unwrap().get(&self.v).copied() {
+                let now = self.reg.tick();
+                let ic = self.reg.in_call.lock().unwrap();
+                for (u, e) in ic.iter().enumerate() {
+                    if let Some((s, what)) = e {
+                        if Some(u) != me && *s < d {
+                            let mut p = self.reg.premature.lock().unwrap();
+                            if p.len() < 4 {
+                                p.push(format!(
+                                    "value {} destroyed at clock {} by thread {:?}; a clear_with callback was handed it at clock {}; thread {} has been inside `{}` (pinned) since clock {}",
+                                    self.v, now, me, d, u, what, s
+                                ));
+                            }
+                            crate::sched::ABORT_RUN.store(true, Ordering::SeqCst);
+                        }
+                    }
+                }
+            }
             *self.reg.drops.lock().unwrap().entry(self.v).or_insert(0) += 1;
             self.reg.live.fetch_sub(1, Ordering::SeqCst);
         }
@@ -118,6 +191,8 @@ pub struct DropReport {
     pub bad_magic_on_drop: usize,
     pub bad_magic_on_read: usize,
     pub flush_rounds: usize,
+    /// destructor runs while another managed thread was pinned since before the value's block was retired (`Tv::drop`)
+    pub premature: Vec<String>,
 }
 
 fn drop_report(reg: &Reg, flush_rounds: usize) -> DropReport {
@@ -130,6 +205,7 @@ fn drop_report(reg: &Reg, flush_rounds: usize) -> DropReport {
         bad_magic_on_drop: reg.bad_magic_on_drop.load(Ordering::SeqCst),
         bad_magic_on_read: reg.bad_magic_on_read.load(Ordering::SeqCst),
         flush_rounds,
+        premature: reg.premature.lock().unwrap().clone(),
     }
 }
 
@@ -141,6 +217,9 @@ pub enum Call {
     DataV,
     Clear,
     IsEmpty,
+    /// `clear_with` whose callback UNWINDS (panics) in its k-th invocation (k ≥ 1), after it has read the slice it was
+    /// handed; the unwind is caught around the call.  Model: a `clear` plus a marked grant (`Model/BucketUnwind.lean`).
+    ClearPanic(usize),
 }
 
 pub fn prog_tok(p: &[Call]) -> String {
@@ -152,7 +231,7 @@ pub fn prog_tok(p: &[Call]) -> String {
         .map(|c| match c {
             Call::Push(v) => format!("p{}", v),
             Call::Data | Call::DataV => "d".into(),
-            Call::Clear => "c".into(),
+            Call::Clear | Call::ClearPanic(_) => "c".into(),
             Call::IsEmpty => "e".into(),
         })
         .collect::<Vec<_>>()
@@ -196,11 +275,24 @@ pub fn execute(progs: &[Vec<Call>], schedule: &[usize]) -> Outcome {
         let results = results.clone();
         let reg = reg.clone();
         bodies.push(Box::new(move || {
+            CUR_T.with(|c| c.set(Some(t)));
             for c in prog {
                 let mut lens = vec![];
+                // a value is created BEFORE the call is entered (its creation is not part of the pinned section)
+                let pv = if let Call::Push(v) = c { Some(Tv::new(&reg, v)) } else { None };
+                reg.enter(
+                    t,
+                    match c {
+                        Call::Push(_) => "push",
+                        Call::Data => "data_with",
+                        Call::DataV => "data",
+                        Call::Clear | Call::ClearPanic(_) => "clear_with",
+                        Call::IsEmpty => "is_empty",
+                    },
+                );
                 let r = match c {
-                    Call::Push(v) => {
-                        bucket.push(Tv::new(&reg, v));
+                    Call::Push(_) => {
+                        bucket.push(pv.unwrap());
                         Res::Pushed
                     }
                     Call::Data => {
@@ -216,17 +308,38 @@ pub fn execute(progs: &[Vec<Call>], schedule: &[usize]) -> Outcome {
                         let mut acc = vec![];
                         bucket.clear_with(|b| {
                             lens.push(b.len());
-                            acc.extend(b.iter().map(|x| x.read()))
+                            acc.extend(b.iter().map(|x| x.take()))
                         });
                         Res::Clr(acc)
                     }
                     Call::IsEmpty => Res::Empty(bucket.is_empty()),
+                    Call::ClearPanic(k) => {
+                        let mut acc = vec![];
+                        let mut n = 0usize;
+                        let _ = std::panic::catch_unwind(std::panic::AssertUnwindSafe(|| {
+                            bucket.clear_with(|b| {
+                                lens.push(b.len());
+                                acc.extend(b.iter().map(|x| x.take()));
+                                n += 1;
+                                if n == k {
+                                    // (resume_unwind: a plain unwind, without the panic hook's message on stderr)
+                                    std::panic::resume_unwind(Box::new("the clear_with callback unwinds"));
+                                }
+                            })
+                        }));
+                        Res::Clr(acc)
+                    }
                 };
+                reg.leave(t);
                 results.lock().unwrap()[t].push((r, lens));
             }
         }));
     }
     let run = sched::run(bodies, schedule);
+    // the managed threads are gone (joined, or unwound out of a run that was given up): nobody is inside a call any more —
+    // values of this run that the collector destroys later (during another run) must not be judged against stale entries
+    reg.in_call.lock().unwrap().clear();
+    // (a run given up by the online reclamation oracle is `timed_out`: nothing of the bucket is touched any more)
     let stuck = run.deadlock || run.timed_out;
     let mut final_visible = vec![];
     let mut empty_after_clear = true;
@@ -409,6 +522,14 @@ pub fn signatures_of_trace(tr: &[(usize, &'static str)]) -> Sig {
 }
 
 pub fn oracle(out: &mut Out, progs: &[Vec<Call>], o: &Outcome) {
+    if !o.drops.premature.is_empty() {
+        // the run was given up at the grant in which this happened; the trace is the failing schedule
+        out.oracle_fail(
+            "a value was destroyed while another thread, pinned since before the clear took it, was still inside its bucket call (block freed under a reader / pusher: use after free)",
+            &format!("{} :: progs {} :: trace {:?}", o.drops.premature.join(" ;; "), list(progs.iter().map(|p| prog_tok(p))), o.run.trace),
+        );
+        return;
+    }
     if o.run.deadlock || o.run.timed_out || !o.run.panicked.is_empty() {
         out.oracle_fail("bucket: deadlock, timeout or panic", &format!("{:?}", o.run.trace));
         return;
@@ -1061,6 +1182,49 @@ pub fn run(cfg: &Cfg, out: &mut Out) {
             one(out, &[t0, t1, t2, t3], &sch);
         }
     }
+    // ---- PARKED-WALKER grid (reclamation under a pinned thread): a chain of nb full blocks (+ r values in a newer, partly
+    // filled one); the victim T1 — a snapshot reader (data_with / data()) or a pusher that has loaded the full tail — is
+    // parked g1 grants into its call (tail loaded / first block read, before following `next` / second block loaded / second
+    // block read); optionally T3 hands the tail over first (so that every block T1 knows is an OLDER block of the chain);
+    // then the clearer T2 detaches and walks the whole chain and returns, T4 pushes into fresh blocks (allocations that may
+    // re-use whatever was freed), and only then T1 goes on through the blocks the clear has retired.  Every block of a
+    // detached chain — not only the detached tail — must outlive every thread pinned before the detach; the online oracle
+    // in `Tv::drop` decides this at the grant in which a destructor runs, before T1 is resumed.
+    for nb in [2usize, 3] {
+        for r in [0usize, 5] {
+            for victim in [Call::Data, Call::DataV, Call::Push(900_001)] {
+                for g1 in [2usize, 4, 5, 7] {
+                    for pre_push in [false, true] {
+                        if matches!(victim, Call::Push(_)) && (g1 != 2 || r != 0) {
+                            continue;
+                        }
+                        out.case(&format!("parked-walker nb={} r={} victim={} g1={} pre_push={}", nb, r, prog_tok(&[victim]), g1, pre_push));
+                        let n = nb * B + r;
+                        let progs = vec![
+                            pf(n),
+                            vec![victim],
+                            vec![Call::Clear, Call::Data],
+                            vec![Call::Push(800_001)],
+                            vec![Call::Push(800_002), Call::Push(800_003)],
+                        ];
+                        let mut sch = rep(0, 3 * n + 2 * (nb + 1) + 8);
+                        sch.extend(rep(1, g1));
+                        if pre_push {
+                            sch.extend(rep(3, 8));
+                        }
+                        sch.extend(rep(2, 3 + 3 * (nb + 2) + 2)); // the whole clear_with (the Data call of T2 comes last)
+                        sch.extend(rep(4, 12));
+                        sch.extend(rep(1, 40 + 3 * (nb + 2)));
+                        sch.extend(rep(3, 8));
+                        sch.extend(rep(2, 60));
+                        out.count("parked-walker grid");
+                        out.nontrivial();
+                        one(out, &progs, &sch);
+                    }
+                }
+            }
+        }
+    }
     // ---- long chains: more than DEFERRED_BLOCK_BATCH_SIZE (32) blocks in one clear — the deferred-destroy batch
     // branch of clear_with — with a push arriving while the clear walks the detached chain
     let chain_sizes: Vec<usize> = if cfg.thorough { vec![32 * B, 33 * B + 7, 65 * B + 1] } else { vec![32 * B, 33 * B + 7] };
@@ -1079,6 +1243,7 @@ pub fn run(cfg: &Cfg, out: &mut Out) {
         out.count("long-chain");
         one(out, &[t0, t1, t2], &sch);
     }
+    unwinding_callbacks(out);
     free_running(cfg, out, &root);
     api_surface(out);
     if cfg.thorough {
@@ -1145,6 +1310,105 @@ pub fn run(cfg: &Cfg, out: &mut Out) {
             out.count_n(&format!("exhaustive.runs.{}", runs_key(&progs)), runs as u64);
             out.count(&format!("exhaustive.complete={}", exhausted));
             out.nontrivial();
+        }
+    }
+}
+
+/// `clear_with` whose CALLBACK UNWINDS (audit item "unwinding user code"): nb full blocks (+ r values in a newer block)
+/// have been pushed and every push has COMPLETED; T1 calls `clear_with` with a callback that unwinds in its k-th
+/// invocation, then snapshots, clears again and asks is_empty; optionally a pusher T2 pushes one value while T1 is parked
+/// right behind its detach.  The run is replayed on the Lean machine with the grant of the unwinding callback marked
+/// (`bucket unwind`, Model/BucketUnwind.lean: the unwind ends the call, no shared state changes): same points, same results,
+/// same visible set, and the values that are neither delivered nor visible afterwards are exactly the model's orphaned
+/// set.  What the real code does there is the finding K-C05-unwind (REPORT): the rest of the detached chain is lost (and
+/// never freed).  It is COUNTED, not alarmed (proposed known finding; `C05.unwinding_callback_loses_rest_of_chain`); every
+/// other oracle (duplicate, fabricated, dropped twice, read after drop, later calls see an empty bucket that is usable) is
+/// asserted.
+fn unwinding_callbacks(out: &mut Out) {
+    for (nb, r) in [(1usize, 0usize), (2, 0), (2, 5), (3, 0), (34, 3)] {
+        let n_blocks = nb + (r > 0) as usize;
+        let ks: Vec<usize> = if nb > 30 { vec![1, 32, 33, n_blocks] } else { (1..=n_blocks + 1).collect() };
+        for k in ks {
+            for racing_push in [false, true] {
+                if racing_push && nb > 3 {
+                    continue;
+                }
+                out.case(&format!("unwinding-callback nb={} r={} k={} racing_push={}", nb, r, k, racing_push));
+                out.count("unwinding-callback case");
+                out.nontrivial();
+                let n = nb * B + r;
+                let progs = vec![pf(n), vec![Call::ClearPanic(k), Call::Data, Call::Clear, Call::IsEmpty], vec![Call::Push(800_001)]];
+                let mut sch = rep(0, 3 * n + 2 * n_blocks + 8);
+                sch.extend(rep(1, 3)); // start, tail load, detach CAS → parked at the first `quiesced`
+                if racing_push {
+                    sch.extend(rep(2, 6));
+                }
+                sch.extend(rep(1, 3 * n_blocks + 30));
+                sch.extend(rep(2, 6));
+                let o = execute(&progs, &sch);
+                let taken: Vec<usize> = o.run.trace.iter().map(|(t, _)| *t).collect();
+                // the grant in which the k-th callback of T1's first call ran: the k-th `bkt.clear.read` grant of thread 1
+                // that lies before T1's first `bkt.data.load_tail`
+                let end_first = o.run.trace.iter().position(|(t, id)| *t == 1 && *id == "bkt.data.load_tail").unwrap_or(o.run.trace.len());
+                let reads: Vec<usize> = o.run.trace[..end_first].iter().enumerate().filter(|(_, (t, id))| *t == 1 && *id == "bkt.clear.read").map(|x| x.0).collect();
+                let marks: Vec<usize> = reads.get(k - 1).copied().into_iter().collect();
+                let unwound = !marks.is_empty();
+                let pushed: BTreeSet<u64> = progs.iter().flatten().filter_map(|c| if let Call::Push(v) = c { Some(*v) } else { None }).collect();
+                let mut delivered: Vec<u64> = vec![];
+                let mut snaps: Vec<u64> = vec![];
+                for r in o.results.iter().flatten() {
+                    match r {
+                        Res::Clr(v) => delivered.extend(v.iter().copied()),
+                        Res::Snap(v) => snaps.extend(v.iter().copied()),
+                        _ => {}
+                    }
+                }
+                let accounted: BTreeSet<u64> = delivered.iter().chain(o.final_visible.iter()).copied().collect();
+                let lost: Vec<u64> = pushed.iter().copied().filter(|v| !accounted.contains(v)).collect();
+                out.op(
+                    &format!("bucket unwind {} {} {} {}", B, list(progs.iter().map(|p| prog_tok(p))), sched::sched_tok(&taken), sched::sched_tok(&marks)),
+                    &format!("{} | orphaned={}", answer(&o), vals(&lost)),
+                );
+                if o.run.deadlock || o.run.timed_out || !o.run.panicked.is_empty() || o.results.iter().zip(progs.iter()).any(|(r, p)| r.len() != p.len()) {
+                    out.oracle_fail("unwinding callback: the run did not complete (deadlock, time-out, or the unwind escaped the call)", &format!("{:?}", o.run.trace));
+                    continue;
+                }
+                if unwound {
+                    out.count("unwinding-callback: the callback unwound inside clear_with");
+                    out.count_n("finding K-C05-unwind: values neither delivered nor visible after a clear_with whose callback unwound (rest of the detached chain)", lost.len() as u64);
+                    out.count_n("finding K-C05-unwind: values never destroyed afterwards (blocks of the detached chain never retired)", o.drops.never_dropped.len() as u64);
+                    if !lost.is_empty() {
+                        out.count("finding K-C05-unwind: runs that lost completed pushes to an unwinding callback");
+                        // known finding K-C05-unwind (listed in known_findings.json; recognised only where the model
+                        // reproduces the run — the `bucket unwind` op above carries the orphaned set)
+                        out.oracle_fail(
+                            "clear_with callback unwound: rest of the detached chain lost (neither delivered nor visible, never destroyed)",
+                            &format!("lost {:?}; {} values never destroyed", vals(&lost), o.drops.never_dropped.len()),
+                        );
+                    }
+                } else {
+                    // the callback never reached its k-th invocation: an ordinary clear — nothing may be lost or leaked
+                    if !lost.is_empty() || !o.drops.never_dropped.is_empty() {
+                        out.oracle_fail("pushed value lost or leaked by a clear_with whose callback did NOT unwind", &format!("lost {:?} never dropped {:?}", lost, o.drops.never_dropped.len()));
+                    }
+                }
+                // whatever the callback did: nothing twice, nothing invented, nothing read after its destructor, and the
+                // bucket is empty and usable for the later calls of T1
+                let mut d2 = delivered.clone();
+                d2.sort();
+                if d2.windows(2).any(|w| w[0] == w[1]) || delivered.iter().any(|v| o.final_visible.contains(v)) {
+                    out.oracle_fail("unwinding callback: value delivered to more than one clearing read (or delivered and still visible)", &format!("{:?}", d2));
+                }
+                if delivered.iter().chain(snaps.iter()).chain(o.final_visible.iter()).any(|v| !pushed.contains(v)) {
+                    out.oracle_fail("unwinding callback: a value was observed that was never pushed", "");
+                }
+                if !o.drops.dropped_twice.is_empty() || o.drops.bad_magic_on_drop > 0 || o.drops.bad_magic_on_read > 0 || !o.drops.premature.is_empty() {
+                    out.oracle_fail("unwinding callback: value dropped twice / read after its destructor / destroyed under a pinned thread", &format!("{:?} {:?}", o.drops.dropped_twice, o.drops.premature));
+                }
+                if !o.empty_after_clear {
+                    out.oracle_fail("unwinding callback: bucket not empty right after a later clear()", "");
+                }
+            }
         }
     }
 }
